@@ -547,6 +547,9 @@ func linesRandValue(rnd *rand.Rand) linesVal {
 		if rnd.Intn(3) == 0 {
 			n = int64(rnd.Intn(20))
 		}
+		if rnd.Intn(12) == 0 {
+			n = 0
+		}
 		if rnd.Intn(3) == 0 {
 			n = -n
 		}
